@@ -23,6 +23,7 @@ def wrap_ctor(text, lw):   # { _val = ...; }  ->  { uint64_t _val; _val = ...; r
 FI_SUBST = [(r'\bvalue_index\b', '(*value_index_p)', 'ref_value_index'), (r'\bold\b', '(*old_p)', 'ref_old')]
 FI_SIG = r'bool ' + CLS + r'find_index\(uint64_t start_index,\s*uint64_t& value_index,\s*marked_value& old\)'
 REFS = [(r'const marked_idx& ', 'marked_idx ', 'cref')]
+QT = ['quick', 'thorough']; TT = ['thorough']
 UNIT = dict(
   title='kirsch_bounded_kfifo_queue: index word, slot scan, valid-region predicates, committed, try_push, try_pop, constructor, destructor (C06, C07)',
   properties=['C06', 'C07'],
@@ -56,12 +57,19 @@ UNIT = dict(
         must_fire={'A_LOAD': 3, 'A_CAS': 3, 'subst:mi_ctor': 1, 'subst:mv_ctor': 2, 'self_call:in_valid_region': 1, 'self_call:not_in_valid_region': 1}),
     src('try_push', r'bool ' + CLS + r'try_push\(value_type value\)', 'static _Bool kbq_try_push(struct kbq* self, value_type value)',
         must_fire={'A_LOAD': 4, 'A_CAS': 3, 'throw': 1, 'subst:find_index_call': 1, 'subst:mi_ctor': 2, 'subst:mv_ctor': 1, 'self_call:committed': 1, 'self_call:queue_full': 1, 'self_call:segment_empty': 1}),
+    src('try_push_cut', r'bool ' + CLS + r'try_push\(value_type value\)', 'static _Bool kbq_try_push_cut(struct kbq* self, value_type value)',
+        cut_loops={0: 'PUSH'}, havoc_exempt=['tail_old', 'head_old', 'idx', 'old_value', 'found_idx', 'new_value', 'new_head', 'new_tail'],
+        must_fire={'A_LOAD': 4, 'A_CAS': 3, 'cut_loop': 1}),
     src('pop_success', r'\[&result\]\(auto& v\)', 'static _Bool kbq_pop_success(value_type* result_p, marked_value* v_p)',
         subst=[(r'\bresult\b', '(*result_p)', 'ref_result'), (r'\bv\b', '(*v_p)', 'ref_v')], must_fire={'subst:traits': 1, 'method:get': 1}),
     src('pop_empty', r'\[\]\(\) (?=\{ return false)', 'static _Bool kbq_pop_empty(void)', must_fire={}),
     src('do_pop', r'auto ' + CLS + r'do_pop\(SuccessFunc successFunc, EmptyFunc emptyFunc\)', 'static _Bool kbq_do_pop(struct kbq* self, value_type* result_p)',
         calls={'successFunc': 'XV_SUCCESSFUNC', 'emptyFunc': 'XV_EMPTYFUNC'},
         must_fire={'A_LOAD': 4, 'A_CAS': 3, 'subst:find_index_call': 1, 'call:successFunc': 1, 'call:emptyFunc': 1, 'subst:mi_ctor': 2, 'subst:mv_ctor': 1}),
+    src('do_pop_cut', r'auto ' + CLS + r'do_pop\(SuccessFunc successFunc, EmptyFunc emptyFunc\)', 'static _Bool kbq_do_pop_cut(struct kbq* self, value_type* result_p)',
+        calls={'successFunc': 'XV_SUCCESSFUNC', 'emptyFunc': 'XV_EMPTYFUNC'}, cut_loops={0: 'POP'},
+        havoc_exempt=['tail_old', 'head_old', 'idx', 'old_value', 'found_idx', 'new_value', 'new_head', 'new_tail'],
+        must_fire={'A_LOAD': 4, 'A_CAS': 3, 'cut_loop': 1}),
     src('ctor', CLS + r'kirsch_bounded_kfifo_queue\(uint64_t k, uint64_t num_segments\)', 'static void kbq_ctor(struct kbq* self, uint64_t k, uint64_t num_segments)', ctor=True,
         subst=[(r'\bmarked_idx::val_mask\b', 'val_mask', 'val_mask')],
         post_subst=[(r'new entry\[([^\]]*)\]\(\)', r'XV_NEW_ENTRIES(self, \1)', 'new_entries'),
@@ -77,11 +85,22 @@ UNIT = dict(
   ] + [dict(id='find_index_%s_k%d' % (v, K), entry='h_find_index_' + v, cls='shape-complete', tiers=['quick', 'thorough'] if K <= 8 else ['thorough'],
             defs={'KMAX': K, 'KLO': K, 'SMAX': 4, 'SMASK': '10u' if K > 4 else '30u'}, unwindset=['kbq_find_index_%s.0:%d' % (v, K + 1)],
             note='k = %d, segments in %s' % (K, '{1,3}' if K > 4 else '{1,2,3,4}')) for K in range(1, 17) for v in 'EN'] + [
-    dict(id='push', entry='h_push', cls='shape-complete', unwind=10, unwindset=['kbq_try_push.0:4', 'kbq_find_index_E.0:4', 'kbq_segment_empty.0:4'], note='k in 1..3, segments in 1..3'),
+  ] + [dict(id='%s_k%d_s%s' % (op, K, sn), entry='h_' + op, cls='shape-complete', tiers=tiers, defs={'KMAX': K, 'KLO': K, 'SMAX': SM, 'SMASK': mask}, unwind=K * SM + 1,
+            unwindset=['kbq_try_push.1:3', 'kbq_do_pop.0:%d' % (SM + 1), 'kbq_find_index_E.0:%d' % (K + 1), 'kbq_find_index_N.0:%d' % (K + 1), 'kbq_segment_empty.0:%d' % (K + 1)],
+            flags=['--object-bits', '10'], timeout=1500, note='k = %d, segments in %s; all callees real text' % (K, sn))
+         for op in ('push', 'pop')
+         for (K, SM, mask, sn, tiers) in [(1, 3, '14u', '123', QT), (2, 3, '14u', '123', QT), (3, 2, '6u', '12', QT), (3, 3, '8u', '3', QT),
+                                          (1, 4, '16u', '4', TT), (2, 4, '16u', '4', TT), (3, 4, '16u', '4', TT), (4, 2, '6u', '12', TT), (4, 3, '8u', '3', TT)]] + [
     dict(id='push_null', entry='h_push_null', cls='shape-complete', unwind=10),
-    dict(id='pop', entry='h_pop', cls='shape-complete', unwind=10, unwindset=['kbq_do_pop.0:5', 'kbq_find_index_N.0:4'], note='k in 1..3, segments in 1..3'),
-    dict(id='init', entry='h_init', cls='shape-complete', unwind=10),
-    dict(id='dtor', entry='h_dtor', cls='shape-complete', unwind=10),
+    dict(id='segment_empty', entry='h_segment_empty', cls='shape-complete', defs={'KMAX': 4, 'SMAX': 4}, unwind=17, flags=['--object-bits', '10']),
+    dict(id='init', entry='h_init', cls='shape-complete', defs={'KMAX': 4, 'SMAX': 4}, unwind=17),
+    dict(id='dtor', entry='h_dtor', cls='shape-complete', defs={'KMAX': 3, 'SMAX': 3}, unwind=10, unwindset=['kbq_dtor.0:10']),
+    dict(id='committed_int', entry='h_committed_int', mode='INT', cls='shape-complete', defs={'KMAX': 3, 'SMAX': 4}, unwind=13, flags=['--object-bits', '10'],
+         note='k in 1..3, segments in 1..4; environment = transitive closure of the other threads\' moves (rely in assumptions)'),
+    dict(id='push_int', entry='h_push_int', mode='INT', cls='shape-complete', defs={'KMAX': 2, 'SMAX': 2, 'XV_STUB': 1}, unwind=5,
+         note='retry loop cut (one arbitrary iteration), arbitrary environment, callees = recording stubs'),
+    dict(id='pop_int', entry='h_pop_int', mode='INT', cls='shape-complete', defs={'KMAX': 2, 'SMAX': 2, 'XV_STUB': 1}, unwind=5,
+         note='retry loop cut (one arbitrary iteration), arbitrary environment, callees = recording stubs'),
   ],
   obligations={
     'kbq.idx.roundtrip': dict(deciding=True, text='for every (k, num_segments) the constructor accepts and every v < k*num_segments: marked_idx(v, m).get() == v, .mark() == m mod 2^(64-bits), and tag+1 gives a different word'),
@@ -90,8 +109,26 @@ UNIT = dict(
     'kbq.in_valid.spec': dict(deciding=True, text='in_valid_region(tail_old, tail, head) <=> tail_old lies in the circular interval (head, tail]'),
     'kbq.not_in_valid.spec': dict(deciding=True, text='not_in_valid_region(tail_old, tail, head) <=> tail_old lies outside the circular interval [head, tail]'),
     'kbq.find_index.covers': dict(deciding=True, text='for every random start the probes of find_index are pairwise distinct slots of [start, start+k) mod size, and all k of them are probed before false is returned'),
+    'kbq.segment_empty.spec': dict(deciding=False, text='segment_empty(head) <=> all k slots of the head segment are empty'),
+    'kbq.push.reject': dict(deciding=True, text='[SEQ] try_push returns false only if at least (S-1)*k+1 values are stored (never on an empty queue); then nothing is modified and the value stays with the caller (C07); a null value throws before anything is touched'),
+    'kbq.push.stores': dict(deciding=True, text='[SEQ] a successful try_push fills exactly one empty slot of the (possibly advanced) tail segment with (value, mark+1) and takes ownership exactly once'),
+    'kbq.pop.empty': dict(deciding=True, text='[SEQ] try_pop reports empty <=> no value is stored; then no slot and no result is modified'),
+    'kbq.pop.oldest_segment': dict(deciding=True, text='[SEQ] a successful try_pop empties exactly one slot (null, mark+1), returns its value once, and that slot lies in the oldest non-empty segment'),
+    'kbq.pop.k_oldest': dict(deciding=True, text='[SEQ] fewer than k stored values are older than the value try_pop returns'),
+    'kbq.inv.preserved': dict(deciding=True, text='[SEQ] constructor state and every operation keep the representation invariant (boundaries, empty outside [head,tail], full strictly inside, ages increase segment-wise)'),
+    'kbq.advance.by_k': dict(deciding=True, text='head and tail are only changed by CAS from the word read to (index+k mod size, tag+1) - head also to (index, tag+1) in committed'),
+    'kbq.dtor.each_once': dict(deciding=True, text='the destructor passes every non-null stored value to delete_value exactly once (C07)'),
+    'kbq.push.commit': dict(deciding=True, text='[INT] committed (hence try_push) returns true only if a consumer took the value or the item is in its slot inside the circular region [head, tail] and no head advance that missed it can still succeed'),
+    'kbq.committed.withdrawn': dict(deciding=True, text='[INT] committed returns false only after its own CAS removed the item (never when a consumer took it)'),
+    'kbq.push.validate': dict(deciding=True, text='[INT] try_push: slot CAS expects the word find_index read, after re-reading an unchanged tail; true needs committed(tail read, new word, idx) and releases the value once; false needs full observed for unchanged head/tail and leaves the value with the caller'),
+    'kbq.pop.validate': dict(deciding=True, text='[INT] do_pop: slot CAS expects the word find_index read, after re-reading an unchanged head; tail is moved on first when head and tail index the same segment; empty needs no match, head==tail and unchanged tail'),
+    'kbq.sync.slot_release': dict(deciding=True, text='sync precondition: the slot CAS of push and pop is release-or-stronger'),
     'kbq.find_index.result': dict(deciding=True, text='find_index returns true with the index and the value of a matching slot of the segment, false only if no slot of the segment matches'),
   },
   canaries=['ctor.rejected', 'ctor.large_index', 'ctor.accepted', 'ctor.one_by_one', 'in_valid.wrap_true', 'in_valid.wrap_false', 'in_valid.nowrap_true',
-            'not_in_valid.wrap_outside', 'not_in_valid.wrap_inside', 'not_in_valid.nowrap_outside', 'find_index.found', 'find_index.found_last', 'find_index.none'],
+            'not_in_valid.wrap_outside', 'not_in_valid.wrap_inside', 'not_in_valid.nowrap_outside', 'find_index.found', 'find_index.found_last', 'find_index.none',
+            'push.rejected', 'push.advanced_tail', 'push.advanced_head', 'push.bumped_head', 'push.on_empty', 'push.null', 'pop.empty', 'pop.empty_after_advancing', 'pop.not_the_oldest',
+            'pop.advanced_tail', 'pop.advanced_head', 'init.reached', 'dtor.tracked', 'dtor.not_stored', 'segment_empty.true', 'segment_empty.false',
+            'committed.taken', 'committed.at_head', 'committed.inside', 'committed.withdrawn', 'push_int.true', 'push_int.false', 'pop_int.moved_tail', 'pop_int.true', 'pop_int.empty'],
+  loop_obligation={'PUSH': 'kbq.push.validate', 'POP': 'kbq.pop.validate'},
 )
